@@ -345,10 +345,14 @@ func (h *c19H) Finish() []string {
 		final = append(final, whole.Sample(i))
 	}
 	hd := hdr(h.parent)
+	var own []string // what the threads themselves noticed (damage to the slices they passed in)
+	for i := 0; i < h.Threads(); i++ {
+		own = append(own, h.fails[i]...)
+	}
 	if !h.haveRef {
 		h.haveRef, h.refObs, h.refFinal, h.refHdr = true, h.obs, final, hd
 		// the read-only region must still hold the initial tokens
-		var r []string
+		r := own
 		for i := 0; i < h.cfg.C*h.roEnd && i < len(final); i++ {
 			want := tk(int64(1 + i))
 			if c19Frames := h.frames(); h.cfg.Partial && i >= h.cfg.C*(c19Frames-1) {
@@ -360,7 +364,7 @@ func (h *c19H) Finish() []string {
 		}
 		return r
 	}
-	var r []string
+	r := own
 	for i := 0; i < h.Threads(); i++ {
 		if h.obs[i] != h.refObs[i] {
 			role := "reader"
@@ -416,6 +420,8 @@ func c19Key(msg string) string {
 		return "shared/shape-changed"
 	case contains(msg, "panicked"):
 		return "shared/panic"
+	case contains(msg, "outer slice"), contains(msg, "caller's slice"):
+		return "shared/caller-slices"
 	}
 	return "shared/other"
 }
